@@ -2,26 +2,122 @@
 
 package fit
 
-// C17 — coordinate and time value types.
+// C17 — coordinate and time value types convert exactly and flag invalids
+// consistently.
 
 // H17a: integer clauses for Latitude over all 2^32 semicircle values.
+// +-90 degrees are +-2^30 semicircles; the sentinel is 0x7FFFFFFF.
 func H17a() {
 	s := vI32()
 	l := NewLatitude(s)
-	inRange := s >= -(1<<30) && s <= (1<<30)-1
-	legal := s != 0x7FFFFFFF && inRange
+	legal := s != 0x7FFFFFFF && s >= -(1<<30) && s <= (1<<30)
+	// Known finding: the library classes exactly +90.0 degrees (2^30
+	// semicircles) as invalid; pinned by the repository's own latlng_test.go.
+	vKnown("KF-C17-lat-plus90", s == 1<<30)
 	vAssert(l.Invalid() == !legal, "C17.lat.invalid-iff")
-	if legal {
+	if !l.Invalid() {
 		vAssert(l.Semicircles() == s, "C17.lat.semicircles")
+	} else {
+		vAssert(l.Semicircles() == 0x7FFFFFFF, "C17.lat.invalid-sentinel")
+	}
+	d := l.Degrees()
+	vAssert((d != d) == l.Invalid(), "C17.lat.nan-iff-invalid")
+	vReached("end")
+}
+
+// H17b: integer clauses for Longitude over all 2^32 values.
+func H17b() {
+	s := vI32()
+	l := NewLongitude(s)
+	vAssert(l.Semicircles() == s, "C17.lng.semicircles")
+	vAssert(l.Invalid() == (s == 0x7FFFFFFF), "C17.lng.invalid-iff")
+	d := l.Degrees()
+	vAssert((d != d) == l.Invalid(), "C17.lng.nan-iff-invalid")
+	vReached("end")
+}
+
+// vClass constrains s to magnitude class k: 2^k <= |s| < 2^(k+1) (k = -1: s = 0).
+func vClass(s int32, k int, neg bool) {
+	if k < 0 {
+		vAssume(s == 0)
+		return
+	}
+	lo := int32(1) << uint(k)
+	if k == 30 {
+		if neg {
+			vAssume(s >= -(1<<30)-(1<<30-1)-1 && s <= -lo)
+		} else {
+			vAssume(s >= lo)
+		}
+		return
+	}
+	hi := int32(1)<<uint(k+1) - 1
+	if neg {
+		vAssume(s >= -hi && s <= -lo)
+	} else {
+		vAssume(s >= lo && s <= hi)
+	}
+}
+
+// H17d: Degrees is exactly semicircles x 180 / 2^31 (= 45 s / 2^29, exact in
+// float64). One magnitude class per instance.
+func H17d() {
+	k, neg, lat := vParam("k"), vParam("neg") == 1, vParam("lat") == 1
+	s := vI32()
+	vClass(s, k, neg)
+	vAssume(s != 0x7FFFFFFF)
+	var d float64
+	if lat {
+		l := NewLatitude(s)
+		vAssume(!l.Invalid())
+		d = l.Degrees()
+	} else {
+		d = NewLongitude(s).Degrees()
+	}
+	ref := (float64(s) * 45) / 536870912
+	vAssert(d == ref, "C17.degrees.exact")
+	vReached("end")
+}
+
+// H17e: constructing from Degrees() gives back the same coordinate within one
+// semicircle whenever the degrees lie strictly inside the legal range.
+func H17e() {
+	k, neg, lat := vParam("k"), vParam("neg") == 1, vParam("lat") == 1
+	s := vI32()
+	vClass(s, k, neg)
+	vAssume(s != 0x7FFFFFFF)
+	if lat {
+		l := NewLatitude(s)
+		vAssume(!l.Invalid())
+		d := l.Degrees()
+		if d > -90 && d < 90 {
+			back := NewLatitudeDegrees(d)
+			diff := int64(back.Semicircles()) - int64(s)
+			vAssert(!back.Invalid() && diff >= -1 && diff <= 1, "C17.lat.roundtrip")
+		}
+	} else {
+		l := NewLongitude(s)
+		d := l.Degrees()
+		if d > -180 && d < 180 {
+			back := NewLongitudeDegrees(d)
+			diff := int64(back.Semicircles()) - int64(s)
+			vAssert(!back.Invalid() && diff >= -1 && diff <= 1, "C17.lng.roundtrip")
+		}
 	}
 	vReached("end")
 }
 
-// H17t: FIT time conversion is a bijection on whole seconds.
+// H17t: FIT time conversion is a bijection onto whole seconds from the epoch.
 func H17t() {
-	x := vU32()
+	x, y := vU32(), vU32()
 	t := decodeDateTime(x)
 	vAssert(encodeTime(t) == x, "C17.time.roundtrip")
 	vAssert(IsBaseTime(t) == (x == 0), "C17.time.basetime")
+	u := decodeDateTime(y)
+	vAssert(t.Equal(u) == (x == y), "C17.time.injective")
+	vAssert(t.Before(u) == (x < y), "C17.time.monotone")
+	// whole seconds from the epoch
+	vAssert(t.Sub(timeBase).Nanoseconds() == int64(x)*1000000000, "C17.time.whole-seconds")
+	vAssert(t.Nanosecond() == 0, "C17.time.nsec-zero")
 	vReached("end")
 }
